@@ -21,6 +21,7 @@ verus! {
 //@@ end
 
 //@@ item file=src/store/mod.rs enum=GCTask
+//@@ make_pub
 //@@ rewrite: tokio::sync::oneshot::Sender<()> ==> ! OneshotSender
 //@@ end
 
@@ -51,8 +52,8 @@ pub open spec fn insert_ops(f: &Frame) -> Seq<Op> {
          Op::Insert(Part::IdxTopic, fkey(f), Seq::<u8>::empty()),
          Op::Insert(Part::IdxCtx, fckey(f), Seq::<u8>::empty())]
 }
-pub open spec fn remove_ops(f: &Frame) -> Seq<Op> {
-    seq![Op::Remove(Part::Stream, id_bytes(f.id)), Op::Remove(Part::IdxTopic, fkey(f)), Op::Remove(Part::IdxCtx, fckey(f))]
+pub open spec fn remove_ops(id: Scru128Id, f: &Frame) -> Seq<Op> {
+    seq![Op::Remove(Part::Stream, id_bytes(id)), Op::Remove(Part::IdxTopic, fkey(f)), Op::Remove(Part::IdxCtx, fckey(f))]
 }
 
 // key functions: contracts proved on the real code in unit `keys`; here they are assumed (modular)
@@ -63,9 +64,75 @@ pub fn idx_topic_key_from_frame(frame: &Frame) -> (r: Result<Vec<u8>, Error>)
         r.is_ok() ==> r.unwrap()@ == fkey(frame),
 { unimplemented!() }
 #[verifier::external_body]
+pub fn idx_topic_key_prefix(context_id: Scru128Id, topic: &str) -> (v: Vec<u8>)
+    requires topic.spec_bytes().len() <= MAX_TOPIC(),
+    ensures v@ == topic_prefix(id_u128(context_id), topic.spec_bytes()),
+{ unimplemented!() }
+#[verifier::external_body]
+pub fn idx_topic_frame_id_from_key(key: &[u8]) -> (r: Scru128Id)
+    requires key@.len() >= 16,
+    ensures id_bytes(r) == key@.subrange(key@.len() - 16, key@.len() as int),
+{ unimplemented!() }
+#[verifier::external_body]
 pub fn idx_context_key_from_frame(frame: &Frame) -> (v: Vec<u8>)
     ensures v@ == fckey(frame),
 { unimplemented!() }
+
+pub assume_specification<'a> [<String as PartialEq<&'a str>>::eq] (a: &String, b: &&str) -> (r: bool)
+    ensures r == (a@ == b@);
+impl Clone for Frame {
+    #[verifier::external_body]
+    fn clone(&self) -> (r: Frame) ensures r == *self { unimplemented!() }
+}
+impl PartialEq for TTL {
+    #[verifier::external_body]
+    fn eq(&self, other: &TTL) -> (r: bool) ensures r == (*self == *other) { unimplemented!() }
+}
+impl vstd::std_specs::cmp::PartialEqSpecImpl for TTL {
+    open spec fn obeys_eq_spec() -> bool { true }
+    open spec fn eq_spec(&self, other: &TTL) -> bool { *self == *other }
+}
+//@@ item file=src/store/mod.rs const=ZERO_CONTEXT
+//@@ const_ensures
+    ensures id_u128(ZERO_CONTEXT) == 0,
+//@@ prologue
+    let z =
+//@@ epilogue
+    ; proof { lemma_be16_zero(id_u128(z)); assert(id_bytes(z) =~= Seq::new(16, |i: int| 0u8)); } z
+//@@ end
+
+//@@include _lemmas_be.rs
+pub open spec fn is_ctx_topic(f: &Frame) -> bool { f.topic@ == "xs.context"@ }
+pub open spec fn stored_frame(st: &St, id: Scru128Id) -> Frame { frame_dec(st.parts.stream[id_bytes(id)]) }
+pub open spec fn remove_log_prefix(st: &St, id: Scru128Id) -> Seq<Ev> {
+    let f = stored_frame(st, id);
+    if is_ctx_topic(&f) { st.log.push(Ev::CtxRemove(id_u128(f.id))) } else { st.log }
+}
+
+pub open spec fn validation_ok(st: &St, f: &Frame) -> bool {
+    &&& (is_ctx_topic(f) ==> id_u128(f.context_id) == 0)
+    &&& (!is_ctx_topic(f) ==> st.contexts.contains(id_u128(f.context_id)))
+    &&& nul_free(topic_bytes(f))
+}
+pub open spec fn stored_ttl(f: &Frame) -> Option<TTL> { if is_ctx_topic(f) { Some(TTL::Forever) } else { f.ttl } }
+pub open spec fn appended(f: &Frame, id: Scru128Id) -> Frame {
+    Frame { topic: f.topic, context_id: f.context_id, id: id, hash: f.hash, meta: f.meta, ttl: stored_ttl(f) }
+}
+pub open spec fn ctx_log_prefix(st: &St, f: &Frame, id: Scru128Id) -> Seq<Ev> {
+    if is_ctx_topic(f) { st.log.push(Ev::CtxInsert(id_u128(id))) } else { st.log }
+}
+pub open spec fn gc_events(f: &Frame) -> Seq<Ev> {
+    match f.ttl {
+        Some(TTL::Head(n)) => seq![Ev::Gc(GCTask::CheckHeadTTL { context_id: f.context_id, topic: f.topic, keep: n })],
+        _ => Seq::<Ev>::empty(),
+    }
+}
+// "xs.context" contains no NUL byte
+pub proof fn axiom_ctx_topic_nul_free()
+    ensures forall|s: Seq<char>| s == "xs.context"@ ==> nul_free(#[trigger] vstd::utf8::encode_utf8(s))
+{
+    admit();
+}
 
 impl Store {
 //@@ item file=src/store/mod.rs fn=get impl=Store ret=r
@@ -104,6 +171,72 @@ impl Store {
     broadcast use axiom_key_bytes_arr16, axiom_key_bytes_arr0, axiom_key_bytes_vec;
 //@@ before_stmt: .commit(
     proof { assert(batch_ops(&batch) =~= insert_ops(frame)); } //# store.insert_frame.three_entries
+//@@ end
+
+//@@ item file=src/store/mod.rs fn=remove impl=Store ret=r
+//@@ rewrite: crate::error::Error ==> ! Error
+//@@ after_all: pub fn remove(&self, ==> Tracked(st): Tracked<&mut St>,
+//@@ after_all: self.get( ==> Tracked(&*st),
+//@@ after_all: .commit( ==> Tracked(st),
+//@@ after_all: .persist( ==> Tracked(st),
+//@@ after_all: .unwrap().remove( ==> Tracked(st),
+//@@ spec
+    requires store_wf(self),
+        old(st).parts.stream.contains_key(id_bytes(*id)) ==> topic_bytes(&stored_frame(old(st), *id)).len() <= MAX_TOPIC(),
+    ensures
+        final(st).last_id == old(st).last_id,
+        // removing an absent id is a no-op
+        !old(st).parts.stream.contains_key(id_bytes(*id)) ==> r is Ok && *final(st) == *old(st), //# store.remove.absent_noop
+        // Ok: one atomic batch of exactly the three tombstones of the frame that was read, then SyncAll (C04, C05, C08)
+        old(st).parts.stream.contains_key(id_bytes(*id)) && r is Ok ==>
+            final(st).log == remove_log_prefix(old(st), *id).push(Ev::Commit(remove_ops(*id, &stored_frame(old(st), *id)))).push(Ev::Persist(fjall::PersistMode::SyncAll)), //# store.remove.one_batch_then_sync
+        old(st).parts.stream.contains_key(id_bytes(*id)) && r is Ok ==>
+            final(st).parts == apply_ops(old(st).parts, remove_ops(*id, &stored_frame(old(st), *id))), //# store.remove.three_tombstones
+        // an xs.context frame's id leaves the registry; nothing else touches it (C07)
+        old(st).parts.stream.contains_key(id_bytes(*id)) && r is Ok ==>
+            final(st).contexts == (if is_ctx_topic(&stored_frame(old(st), *id)) { old(st).contexts.remove(id_u128(stored_frame(old(st), *id).id)) } else { old(st).contexts }), //# store.remove.unregisters
+//@@ before_stmt: .commit(
+    proof { assert(batch_ops(&batch) =~= remove_ops(*id, &frame)); } //# store.remove.three_tombstones
+//@@ prologue
+    broadcast use axiom_key_bytes_arr16, axiom_key_bytes_arr0, axiom_key_bytes_vec;
+//@@ end
+
+//@@ item file=src/store/mod.rs fn=append impl=Store ret=r
+//@@ rewrite: crate::error::Error ==> ! Error
+//@@ after_all: pub fn append(&self, ==> Tracked(st): Tracked<&mut St>,
+//@@ after_all: scru128::new( ==> Tracked(st),
+//@@ after_all: .unwrap().insert( ==> Tracked(st),
+//@@ after_all: .contains( ==> Tracked(&*st),
+//@@ after_all: self.insert_frame( ==> Tracked(st),
+//@@ after_all: self.gc_tx.send( ==> Tracked(st),
+//@@ after_all: self.broadcast_tx.send( ==> Tracked(st),
+//@@ spec
+    requires store_wf(self), topic_bytes(&frame).len() <= MAX_TOPIC(),
+    ensures
+        // ids: a fresh id, above every id handed out before, replaces whatever id the caller passed (C01)
+        final(st).last_id > old(st).last_id, //# store.append.fresh_id
+        r is Ok ==> id_u128(r.unwrap().id) == final(st).last_id, //# store.append.fresh_id
+        // accepted only into the zero context / a registered context; xs.context only in the zero context; no NUL (C05, C07)
+        r is Ok ==> validation_ok(old(st), &frame), //# store.append.rejects_invalid
+        !validation_ok(old(st), &frame) ==> r is Err && final(st).parts == old(st).parts
+            && final(st).contexts == old(st).contexts && final(st).log == old(st).log, //# store.append.reject_no_trace
+        // the accepted frame is the given one with the fresh id; xs.context is always kept forever (C01, C07)
+        r is Ok ==> r.unwrap() == appended(&frame, r.unwrap().id), //# store.append.frame_as_given
+        r is Ok ==> final(st).contexts == (if is_ctx_topic(&frame) { old(st).contexts.insert(id_u128(r.unwrap().id)) } else { old(st).contexts }), //# store.append.registers
+        // ephemeral: never stored, broadcast exactly once (C09)
+        r is Ok && stored_ttl(&frame) == Some(TTL::Ephemeral) ==> final(st).parts == old(st).parts
+            && final(st).log == ctx_log_prefix(old(st), &frame, r.unwrap().id).push(Ev::Broadcast(r.unwrap())), //# store.append.ephemeral_not_stored
+        // otherwise: stored (one batch, SyncAll) BEFORE the single broadcast; a head:N GC task iff the stored ttl is head:N,
+        // for exactly this context, topic and N (C03, C04, C08)
+        r is Ok && stored_ttl(&frame) != Some(TTL::Ephemeral) ==> final(st).parts == apply_ops(old(st).parts, insert_ops(&r.unwrap())), //# store.append.stored
+        r is Ok && stored_ttl(&frame) != Some(TTL::Ephemeral) ==> final(st).log ==
+            (ctx_log_prefix(old(st), &frame, r.unwrap().id).push(Ev::Commit(insert_ops(&r.unwrap()))).push(Ev::Persist(fjall::PersistMode::SyncAll))
+             + gc_events(&r.unwrap())).push(Ev::Broadcast(r.unwrap())), //# store.append.store_then_broadcast
+        // a failed append broadcasts nothing
+        r is Err ==> forall|i: int| old(st).log.len() <= i < final(st).log.len() ==> !(final(st).log[i] is Broadcast), //# store.append.no_broadcast_on_err
+        old(st).log.len() <= final(st).log.len(),
+//@@ prologue
+    proof { axiom_ctx_topic_nul_free(); axiom_fmt_req_scru(); }
 //@@ end
 }
 
